@@ -41,8 +41,36 @@ example : encodeMsg exCfg (Encoder.empty exCfg) (exMsg.take 2) = .ok exInverted 
 example : exInverted.pos = .ok (1, 58624, 25600) := by decide
 example : MsgFits exCfg (exMsg.take 2 ++ exMsg.drop 2).length := by decide
 
+/-! ## Sinks that write back to front: open finding D33
+
+`C07_range_seek_resumes` is about a sink whose position grows (the model's `bulk` list; `Vec`,
+`SmallVec`, `Cursor`).  `Reverse<Cursor>` over a buffer of `L` words stores the `j`-th written word
+at index `L - 1 - j` and reports the position `L - k` after `k` writes; a reversed decoder at
+position `p` reads the word that was written `(L - p)`-th next.  So the forward position
+`bulk.len() + held` of the theorem corresponds to the reversed position `L - (bulk.len() + held)`,
+whereas `RangeEncoder::pos` computes `bulk.pos() + held = (L - bulk.len()) + held`. -/
+
+/-- what `RangeEncoder::pos` reports over `Reverse<Cursor>` with a buffer of `L` words -/
+def Encoder.posReverseSink (L : Nat) (e : Encoder) : Nat := (L - e.bulk.length) + e.situation.held
+
+/-- the reversed position that corresponds to the forward snapshot of `C07_range_seek_resumes` -/
+def Encoder.correctReversePos (L : Nat) (e : Encoder) : Nat := L - (e.bulk.length + e.situation.held)
+
+/-- **D33**: the reported position is right iff no word is held back; otherwise it is off by twice
+    the number of held words -/
+theorem D33_reverse_sink_pos (L : Nat) (e : Encoder) (h : e.bulk.length + e.situation.held ≤ L) :
+    e.posReverseSink L = e.correctReversePos L + 2 * e.situation.held ∧
+    (e.posReverseSink L = e.correctReversePos L ↔ e.situation.held = 0) := by
+  unfold Encoder.posReverseSink Encoder.correctReversePos
+  constructor <;> omega
+
+/-- the inverted example: a buffer of 4 words, nothing written yet, one word held — the encoder
+    reports position 5, beyond the buffer (the reversed decoder rejects the seek); 3 is correct -/
+example : exInverted.posReverseSink 4 = 5 ∧ exInverted.correctReversePos 4 = 3 := by decide
+
 end CV.Range
 
+#print axioms CV.Range.D33_reverse_sink_pos
 #print axioms CV.Range.C07_range_seek_resumes
 #print axioms CV.Range.C07_range_seek_beyond_rejected
 #print axioms CV.Range.C07_range_seek_eq_sequential
